@@ -851,6 +851,9 @@ void cmb_process_stop(struct cmb_process *tgt, void *retval)
     cmi_process_drop_resources(tgt);
     wake_process_waiters(&(tgt->waiters), CMB_PROCESS_STOPPED);
 
+    /* Whatever it was suspended in, it is not any longer */
+    tgt->yielding = false;
+
     /* Stop the underlying coroutine, set its exit value */
     struct cmi_coroutine *cp = (struct cmi_coroutine *)tgt;
     cmi_coroutine_stop(cp, retval);
@@ -873,13 +876,12 @@ static void resume_event(void *vp, void *arg)
      * out of the yield in this instant and it waits for something else by now,
      * that wait must not see a signal that was never meant for it.
      */
-    if (!pp->yielding) {
+    struct cmi_coroutine *cp = (struct cmi_coroutine *)pp;
+    if (!pp->yielding || (cp->status != CMI_COROUTINE_RUNNING)) {
         cmb_logger_info(stdout, "%s is no longer yielding, resume dropped", pp->name);
         return;
     }
 
-    struct cmi_coroutine *cp = (struct cmi_coroutine *)pp;
-    cmb_assert_debug(cp->status == CMI_COROUTINE_RUNNING);
     (void)cmi_coroutine_resume(cp, arg);
 }
 
